@@ -2,9 +2,12 @@ SPECIFICATION Spec
 CONSTANTS
   Calls <- AllCallsThorough
   BreakPair = FALSE
+  SpareLen = 320
+  SpareDev = "none"
 CHECK_DEADLOCK FALSE
 INVARIANT ExactWidth
 INVARIANT ReadBack
 INVARIANT PairRelation
 INVARIANT WrapRefused
+INVARIANT SpareIgnored
 INVARIANT Export
